@@ -228,6 +228,40 @@ func c02Run(c *C) {
 	sweep, _ := c02Plan(c.Tier)
 	if c.Idx < sweep {
 		f := c01Filters[c.Idx]
+		if f == "safe" {
+			// an opt-out covers the expression it is written on and nothing else: `safe` next door (on another candidate,
+			// argument, binding, condition) leaves the tainted neighbour escaped
+			for _, src := range []string{
+				`{% firstof t1 "lit"|safe %}`, `{% firstof nothing|safe t1 %}`, `{% firstof "" t1 t2|safe %}`, `{% firstof "lit"|safe %}{% firstof t2 %}`,
+				`{{ "x"|safe }}{{ t1 }}{{ "y"|safe }}`, `{% cycle t1 "b"|safe %}`, `{% cycle "a"|safe t1 as c %}~{% cycle c %}`, `{% cycle "a"|safe t1 as c silent %}{% cycle c %}{{ c }}`,
+				`{% with a="s"|safe %}{{ t1 }}{{ a }}{{ ts }}{% endwith %}`, `{% set a = "s"|safe %}{{ t1 }}{{ a }}{{ t1 + a }}{{ a + t1 }}`,
+				`{% filter cut:"~" %}{{ t1 }}{{ "x"|safe }}{% endfilter %}`, `{% for i in tl %}{{ i }}{{ "lit"|safe }}{% endfor %}`,
+				`{% macro m(a) %}{{ a }}{% endmacro %}{{ m(t1) }}{{ m("x"|safe) }}{{ m(t2) }}`, `{% if t1|safe %}{{ t1 }}{% endif %}`, `{% ifequal t1|safe t1 %}{{ t2 }}{% endifequal %}`,
+				`{% for i in tl|safe %}{{ i }}{% endfor %}`, `{% with w=tl|safe %}{{ w.0 }}{{ w|first }}{% endwith %}`, `{% include "/inc.tpl" with q="x"|safe %}`,
+				`{% autoescape off %}{{ "x" }}{% endautoescape %}{{ t1 }}`, `{% autoescape off %}{% autoescape on %}{{ t1 }}{% endautoescape %}{% endautoescape %}{{ t2 }}`,
+				`{{ "lit"|truncatechars_html:3 }}{{ t1 }}`, `{% firstof "lit"|truncatewords_html:1 t1 %}{% firstof nothing t1 "lit"|truncatechars_html:2 %}`,
+			} {
+				set, _ := newSet(map[string]string{"/inc.tpl": "{{ q }}{{ t1 }}"})
+				tpl, err := set.FromString(src)
+				if err != nil {
+					c.Fail("setup", D{"source": src, "error": err.Error()})
+					return
+				}
+				out, xerr := tpl.Execute(c02Ctx(false))
+				c.Eval(1)
+				if xerr != nil {
+					c.Fail("setup", D{"source": src, "error": xerr.Error()})
+					return
+				}
+				if leak := c02Leak(out, false); leak != "" {
+					c.Fail("raw-leak", D{"source": src, "output": q(out), "leak": q(leak), "why": "an opt-out written on one expression switched escaping off for another one"})
+					return
+				}
+				c.Nontrivial("nextdoor:" + src)
+			}
+			c.Cover("optout_next_door")
+			return
+		}
 		if c02OptOutFilters[f] {
 			c.Cover("sweep_skipped_optout_" + f)
 			return
